@@ -2,6 +2,17 @@
   C16 -- the ENVIRONMENT clause: process-wide settings (state.py, config.py; the table of settings and the modules
   reading them is GENERATED: `Gen.Caches.settings`) and memoised analyses (Model/EnvMemo.lean).
 
+  STATUS: MODEL REMARKS.  `Model/EnvMemo.lean` is a small abstract machine (one netlist, settings, one memo slot, an
+  ARBITRARY analysis `f elts env`); it is not executed by the driver and has no correspondence stream of its own --
+  nothing of lcapy is claimed through these theorems.  They explain the mechanism: lcapy never invalidates a memo when
+  a setting changes, so a trace can remain exactly when a memoised analysis is sensitive to a setting that is toggled
+  around a query (`toggle_query_back_trace`, `toggle_trace_witness`); `toggle_back_*` hold because assigning a setting
+  cannot touch a memo; `insensitive_history_independent` carries the real obligation as its HYPOTHESIS
+  (`Insensitive f keys`) and that hypothesis is not discharged for any analysis of lcapy.
+  What is claimed of lcapy for this clause: the table theorems `netlist_layer_reads_only_solver_method` /
+  `netlist_layer_reads_no_state_setting` (Props/C16Tables.lean) and the toggle oracle on the real code (a setting is
+  toggled, a query asked under it, the setting toggled back: every later observation is compared with a fresh rebuild).
+
   * `answer_is_function_of_elements_and_settings`  every answer is `f elts env₀` for the elements at the time of the
         query and the settings `env₀` at the time the memo was filled -- nothing else of the history enters;
   * `insensitive_history_independent`  if the analysis does not read the settings the history assigns, every query
